@@ -1158,6 +1158,13 @@ void tickit_term_resume(TickitTerm *tt)
 
   if(tt->driver->vtable->resume)
     (*tt->driver->vtable->resume)(tt->driver);
+
+  /* The driver's pause reset the terminal's rendition while our cached pen
+   * kept its attributes; send them again so that later output is drawn with
+   * the pen the cache claims is in effect
+   */
+  if(tickit_pen_is_nondefault(tt->pen))
+    (*tt->driver->vtable->chpen)(tt->driver, tt->pen, tt->pen);
 }
 
 const char *tickit_termctl_name(TickitTermCtl ctl)
